@@ -303,6 +303,9 @@ func Explore(sc *Scenario, opt Options) *Stats {
 		st.OracleSkipped += int64(x.OracleSkipped)
 		if !r.Abandoned {
 			oh := hashStrs(x.obs)
+			if _, seen := st.outcomes[oh]; !seen && dumpObs != nil {
+				fmt.Fprintf(dumpObs, "%s\n", strings.Join(x.obs, " ;; "))
+			}
 			st.outcomes[oh] = struct{}{}
 			if x.conflict {
 				st.Nontrivial++
@@ -346,7 +349,10 @@ func Explore(sc *Scenario, opt Options) *Stats {
 					cpre = 1
 				}
 			case vrt.KTimer:
-				cpre = 1
+				// an early expiry costs a preemption; co-firing wake-ups due at the same instant is free
+				if p.Preemptive {
+					cpre = 1
+				}
 			case vrt.KEnv:
 				cdev = 1
 			}
@@ -382,6 +388,15 @@ func Explore(sc *Scenario, opt Options) *Stats {
 	st.WallS = time.Since(start).Seconds()
 	return st
 }
+
+// dumpObs (debugging aid, VERIF_DUMP_OBS=<file>): every distinct outcome is appended to the file.
+var dumpObs = func() *os.File {
+	if p := os.Getenv("VERIF_DUMP_OBS"); p != "" {
+		f, _ := os.OpenFile(p, os.O_CREATE|os.O_WRONLY|os.O_APPEND, 0o644)
+		return f
+	}
+	return nil
+}()
 
 func shardOf(p []int) int {
 	h := 0
